@@ -470,11 +470,17 @@ def gen_program_x86(rng, feat, bits=32):
             byte = rng.randint(1, 4)
             writers.append("MOV BYTE PTR [cell%d+%d], 0x%x" % (tgt, byte, rng.getrandbits(8)))
         lcell = lab()
-        pos = rng.choice(["before", "between", "loop"])
+        pos = rng.choice(["before", "between", "loop", "nested", "nested"])
         if pos == "before":
             main = main + writers + seq
         elif pos == "between":
             main = main + seq[:3] + writers + seq[3:] + seq[:0]
+        elif pos == "nested":
+            # the cells run in an inner loop that is translated (twice: from the entry block falling into it
+            # and from its back edge) before anything is written; the writers run between two passes
+            lo = lab()
+            main = main + ["MOV EDI, 2", "%s:" % lo, "MOV EDX, 2", "%s:" % lcell] + seq + \
+                ["DEC EDX", "JNZ %s" % lcell] + writers + ["DEC EDI", "JNZ %s" % lo]
         else:
             cnt = "EDX"
             main = main + ["MOV %s, 2" % cnt, "%s:" % lcell] + seq + writers + ["DEC %s" % cnt, "JNZ %s" % lcell]
